@@ -54,7 +54,7 @@ namespace
     return {{c*p[0] - s*p[1] + m.tx, s*p[0] + c*p[1] + m.ty}};
   }
 
-  const int N_BASES = 6;
+  const int N_BASES = 8;
   worlds::Opt base_opt(int b, bool spherical)
   {
     worlds::Opt o;
@@ -64,12 +64,16 @@ namespace
     if (b == 3) o.force_surface = true;
     if (b == 4) o.area_only = true;
     if (b == 5) o.multi_ridge = true;
+    if (b == 6) { o.area_only = true; o.long_traces = true; }
+    if (b == 7) { o.area_only = true; o.many_depth_points = true; }
     return o;
   }
-  const char *BASE_NAMES[] = {"rich world", "rich world, other constants and geometry", "rich world with depth surfaces given at points", "rich world with forced surface temperature", "area features only", "rich world whose oceanic plate has two oblique ridge segments with a transform fault and spreading velocities varying along them"};
+  const char *BASE_NAMES[] = {"rich world", "rich world, other constants and geometry", "rich world with depth surfaces given at points", "rich world with forced surface temperature", "area features only", "rich world whose oceanic plate has two oblique ridge segments with a transform fault and spreading velocities varying along them",
+                              "area features with three small faults and a small slab on long traces running along x, along y and diagonally", "area features, the continental plate's max depth given at 20 points in general position"
+                             };
 
   struct ProbePt { double x, y, depth; bool boundary; };
-  std::vector<ProbePt> probes(bool spherical, bool area_only)
+  std::vector<ProbePt> probes(bool spherical, bool area_only, bool long_traces = false, bool many_depth_points = false)
   {
     std::vector<ProbePt> v;
     for (auto &q : worlds::lattice(spherical)) v.push_back({q.x, q.y, q.depth, false});
@@ -79,7 +83,19 @@ namespace
       for (double y : {-3.5, -2.0, 0.0, 1.0, 2.2, 3.5, -1.25})
         for (double d : {1e4, 5e4, 1.5e5, 2e5, 3e5})
           v.push_back({x*s, y*s, d, false});
-    if (area_only)
+    if (long_traces)
+      {
+        // along the four traces (straight between the coordinates; the curve through them stays within the half thickness), shallow enough to be inside
+        const std::vector<std::vector<P2>> traces = {{{{-4,-4}},{{0,-3.2}},{{4,-4.2}}}, {{{-4.5,4}},{{-4.3,0}},{{-4.5,-2.5}}}, {{{1,4.5}},{{4.5,1}}}, {{{4.2,-2}},{{4.4,1}},{{4.2,3.5}}}};
+        for (auto &tr : traces) for (size_t i = 0; i + 1 < tr.size(); ++i) for (double t = 0.04; t < 1.0; t += 0.0613)
+              for (double d : {2e3, 8e3})
+                v.push_back({(tr[i][0] + t*(tr[i+1][0]-tr[i][0]))*s, (tr[i][1] + t*(tr[i+1][1]-tr[i][1]))*s, d, false});
+      }
+    if (many_depth_points)
+      for (double x = -4.75; x < 0; x += 0.5) for (double y = -4.75; y < 5; y += 0.5)
+          for (double d : {1.02e5, 1.18e5, 1.33e5, 1.52e5, 1.71e5, 1.88e5, 2.1e5})
+            v.push_back({x*s, y*s, d, false});
+    if (area_only && !many_depth_points)
       // points exactly on polygon edges and corners (and on the depth limits): exact motions must preserve them
       for (double x : {-5.0, 0.0, 5.0, -2.5, 2.5}) for (double y : {-5.0, 0.0, 5.0, 1.0})
           for (double d : {0.0, 1e5, 1.5e5, 4e5, 0.5e5})
@@ -107,7 +123,7 @@ namespace
     const worlds::Opt o = base_opt(b, spherical);
     d.text = worlds::rich(o);
     auto w = make_world(d.text, 1, "base");
-    const auto pr = probes(spherical, o.area_only);
+    const auto pr = probes(spherical, o.area_only, o.long_traces, o.many_depth_points);
     const double delta_h = spherical ? 1e-6 : 0.1, delta_v = 0.1;   // degrees / metres
     for (auto &q : pr)
       {
@@ -192,7 +208,7 @@ namespace
     o.plume_azimuth_shift = -m.angle_deg;   // azimuths are clockwise from north: a counter-clockwise turn of the world lowers them
     const std::string text = worlds::rich(o);
     auto w = make_world(text);
-    const auto pr = probes(false, o.area_only);
+    const auto pr = probes(false, o.area_only, o.long_traces, o.many_depth_points);
     Tally t;
     for (size_t i = 0; i < pr.size(); ++i)
       {
@@ -262,13 +278,14 @@ namespace
     o.shift = off;
     const std::string text = worlds::rich(o);
     auto w = make_world(text);
-    const auto pr = probes(true, o.area_only);
+    const auto pr = probes(true, o.area_only, o.long_traces, o.many_depth_points);
     Tally t;
     uint64_t aliases = 0;
     // is the trench of the slab (tag 4) / fault (tag 5) written with longitudes outside (-180,180]?
     const double vs = (o.variant == 1 ? 0.5 : 0.0) + off;
     auto outside = [](double lon) { return !(lon > -180.0 && lon <= 180.0); };
-    const bool slab_out = outside(1 + vs) || outside(1.2 + vs), fault_out = outside(-4 + vs) || outside(-1 + vs);
+    const bool slab_out = o.long_traces ? (outside(4.2 + vs) || outside(4.4 + vs)) : (outside(1 + vs) || outside(1.2 + vs));
+    const bool fault_out = o.long_traces ? (outside(-4.5 + vs) || outside(4.5 + vs)) : (outside(-4 + vs) || outside(-1 + vs));
     const std::function<std::string(int, int)> classify = [=](int want_tag, int got_tag)
     {
       if (((want_tag == 4 || got_tag == 4) && slab_out) || ((want_tag == 5 || got_tag == 5) && fault_out)) return std::string("/trench-longitudes-outside-(-180,180]");
@@ -346,7 +363,7 @@ int main(int argc, char **argv)
     s[0].name = "cartesian";
     s[0].n = motions.size() * N_BASES;
     s[0].run = [](uint64_t i, Ctx &c) { run_cartesian(motions, i, c); };
-    s[0].bound = std::to_string(motions.size()) + " motions (" + (th ? "32 angles x 18 translations" : "7 angles x 7 translations") + " minus identity) x 6 base worlds x " + std::to_string(probes(false, false).size()) + "+ 3-D probes and 54 2-D probes";
+    s[0].bound = std::to_string(motions.size()) + " motions (" + (th ? "32 angles x 18 translations" : "7 angles x 7 translations") + " minus identity) x 8 base worlds x " + std::to_string(probes(false, false).size()) + "+ 3-D probes and 54 2-D probes";
     s[1].name = "spherical";
     s[1].n = (offs.size() + 1) * N_BASES;
     s[1].run = [](uint64_t i, Ctx &c) { run_spherical(offs, i, c); };
